@@ -34,8 +34,8 @@ RULE = (
 ASSUMPTIONS = ["graphs with more than 4 components are not explored (small-scope argument in DESIGN.md C02)"]
 
 N, V = X.name, X.num
-PRIMES = [2.0, 3.0, 5.0, 7.0]
-CONST = [11.0, 13.0, 17.0, 19.0]
+PRIMES = [2.0, 3.0, 5.0, 7.0, 0.5, 0.25]
+CONST = [11.0, 13.0, 17.0, 19.0, 23.0, 29.0]
 KINDS = "drpv"  # derived, reaction, parameter IA, variable IA
 
 
@@ -283,6 +283,16 @@ def generate(tier):
             if len(cases) >= 300000:
                 yield cases
                 cases = []
+    # longer structures (n = 4..6) in EVERY declaration order: the retry queue's iteration budget and its
+    # re-enqueue logic are exercised by long reversed chains, which n <= 3 cannot contain
+    for n in (4, 5, 6):
+        chain = sum(1 << (i * n + (i + 1)) for i in range(n - 1))                      # i names i+1
+        tree = sum(1 << (i * n + j) for i in range(n) for j in (2 * i + 1, 2 * i + 2) if j < n)
+        cross = chain | (1 << (0 * n + (n - 1)))                                         # chain + shortcut edge
+        cyc = chain | (1 << ((n - 1) * n + 0))                                           # n-cycle
+        for adj in (chain, tree, cross, cyc):
+            for perm in it.permutations(range(n)):
+                cases.append({"n": n, "adj": adj, "perm": list(perm), "kinds": ("drpv" * 2)[:n] if n % 2 else "d" * n})
     for variant in ("base", "chain", "own", "loop", "loop3"):
         for perm in it.permutations(["s", "c0", "c1", "c2", "c3"]):
             cases.append({"family": "surr", "variant": variant, "perm": list(perm)})
